@@ -116,7 +116,10 @@ fn main() {
                                 let next = g.top().clone();
                                 // the follow-up state's lists are judged as they are; its children are
                                 // observed for one sample in five only (volume matters more here)
-                                let list = if rng.chance(0.2) { guarded(|| next.valid_actions_no_rep()) } else { Ok(Vec::new()) };
+                                // (after a pull lead more often: which enemy steps then count as pulls is
+                                // only visible in the status of the grandchildren)
+                                let p_children = if kind == 1 { 0.5 } else { 0.2 };
+                                let list = if rng.chance(p_children) { guarded(|| next.valid_actions_no_rep()) } else { Ok(Vec::new()) };
                                 if let Ok(list) = list {
                                     for b in list.iter() {
                                         if !g.probe(b) {
